@@ -209,6 +209,7 @@ def check_find_pairs(chk, parts=("contacts", "angles", "labels", "selection")) -
     c = spec("constants.json")["C03"]
     fi = repo.func(AN, "find_pairs")
     chk.note_function(fi)
+    fi = c03e.unfolded(repo, fi)  # a generator helper consumed here is read as the loop it stands for
     fm = FlowMap(fi.node)
     inl = Inliner(fi.node)
     loop = kd_loop(chk, fi)
